@@ -148,6 +148,10 @@ def _groups():
         "WSL": S((lit("chat"),), False, endpoint="wsl"),
         "WSV": S((lit("room"), var("string", "s")), True, websocket=True, endpoint="wsv"),
         "HTB": S((lit("room"), var("string", "s"), lit("ws")), True, endpoint="htb"),
+        # slashes that are significant: a rule that keeps a literal '//' (merge_slashes=False), strict branch, asked
+        # without its trailing slash (path-converter values with '//' inside come from the general rules' path sets)
+        "KS": S((lit("keep"), lit(""), lit("slashes")), True, merge=False, strict=True, endpoint="ks"),
+        "KP": S((lit("wiki"), var("path", "p")), True, strict=True, endpoint="kp"),
     }
     return d
 
@@ -161,7 +165,7 @@ GG = [ID[n] for n in ("G0", "G1", "G2", "G3", "G4", "G5", "GA")]
 WG = [ID[n] for n in ("W0", "W1", "WA", "W2", "W3", "W4")]
 SG = [[ID[a], ID[b]] for a, b in (("Z0", "Z1"), ("ZF0", "ZF1"), ("ZS0", "ZS1"), ("ZD0", "ZD1"), ("IT0", "IT1"),
                                   ("NI0", "NI1"), ("IX0", "IXA"), ("IX0", "IXB"), ("WSB", "WSL"), ("WSV", "HTB"),
-                                  ("WSB", "WSV"))]
+                                  ("WSB", "WSV"), ("KS", "KP"))]
 
 
 def _ustr(sp):
